@@ -21,7 +21,7 @@ from koala.flux_finder import fluxes_from_bonds
 DRIVERS = ("c10",)
 TRANSLATORS = ("tiling_helpers",)
 MODEL_TARGETS = ["Gen/TilingGen.vo", "Model/Lattice.vo", "Model/Tiling.vo", "Model/Examples.vo"]
-TARGETS = ["Proofs/TilingFacts.vo"]
+TARGETS = ["Proofs/TilingFacts.vo", "Proofs/TilingCount.vo", "Proofs/ExamplesFacts.vo", "Proofs/ExamplesIndex.vo", "Proofs/ExamplesCensus.vo", "Proofs/ExamplesCensusHC1.vo", "Proofs/ExamplesCensusHC2.vo", "Proofs/ExamplesCensusHC3.vo", "Proofs/ExamplesClaims.vo"]
 LEVEL = "proof"
 TRUST = [
     "translate/tiling_helpers.py maps Python int //, %, comparisons, bool*int of _next_cell_number, _crossing and the two nested next_direction closures to Z.div, Z.modulo, Z.eqb, b2z (validated on an exhaustive grid of small arguments on every run, divisors != 0; not proved)",
